@@ -79,6 +79,19 @@ Section Top.
     intros Hr. apply admission_exact; assumption.
   Qed.
 
+  (** The admission equation in the form the timeline theorems (Timeline.wf: wf_loop) assume it. *)
+  Theorem served_ref_wf_loop md l c A c' p a :
+    discover md l c = Ok (A, c') -> In (p, a) A ->
+    exists k ref,
+      a_ref a = Some k /\ lookup k (a_reps a) = Some ref /\
+      (r_segs ref <> [] -> 0 <= repDuration (trep ref) < two63 -> admission_range ref ->
+       1000 * repDuration (trep ref) = a_loop a * ts (trep ref)).
+  Proof.
+    intros H Hin. destruct (served_asset_admission _ _ _ _ _ _ _ H Hin) as (k & ref & H1 & H2 & _ & H4 & _).
+    exists k, ref. repeat split; auto. intros Hne Hr Ha.
+    rewrite <- (rduration_repDuration ref Hne Hr). apply H4. exact Ha.
+  Qed.
+
   (** End to end: start in write mode over an empty metadata directory, then start from the
       directory it left (or from any part of it: files may be missing): same assets, same stored
       fields, same admission decisions, same start-up errors as a scanning server. *)
